@@ -3,11 +3,6 @@ use crate::live_events::LiveEvents;
 
 use super::{Cfg, Error, Events, Options, YamlDeserializer};
 
-fn normalize_str_input(input: &str) -> &str {
-    // Normalize: ignore a single leading UTF-8 BOM if present.
-    input.strip_prefix('\u{FEFF}').unwrap_or(input)
-}
-
 fn deserialize_with_scope<'de, R, F, W>(
     src: &mut LiveEvents<'de>,
     cfg: Cfg,
@@ -81,8 +76,8 @@ pub fn with_deserializer_from_str_with_options<'de, R, F>(
 where
     for<'e> F: FnOnce(crate::Deserializer<'de, 'e>) -> Result<R, Error>,
 {
-    let input = normalize_str_input(input);
-
+    // A single leading UTF-8 BOM is ignored: the event source strips it (exactly once) and the
+    // snippet renderer strips it from the text it is given.
     let with_snippet = options.with_snippet;
     let crop_radius = options.crop_radius;
 
